@@ -77,6 +77,8 @@ type c06Op struct {
 	BadTo bool      `json:"bad_to,omitempty"` // unparsable recipient string
 	Gas   uint64    `json:"gas,omitempty"`    // explicit (low) gas limit
 	Ops   []c06Op   `json:"ops,omitempty"`    // seq: two ops in ONE transaction (both or nothing)
+	// CallGas: the forwarder hands the precompile / ERC20 exactly this gas stipend (frame "plain"); the tx itself has ample gas
+	CallGas uint64 `json:"call_gas,omitempty"`
 }
 
 type mapObs struct {
@@ -106,11 +108,13 @@ type stepObs struct {
 //	2 self-call with mode 1, ignore the result, STOP  3 call target(payload), ignore failure, STOP
 //	5 call target(payload) (must succeed), then self-call with mode 1, STOP
 //	6 calldata = 6 ‖ target1 ‖ len1(2) ‖ payload1 ‖ target2 ‖ payload2: both calls must succeed, else REVERT
-var fwdInit = mustHex("60d7600c60003960d76000f3" +
-	"60003560f81c80600214610062578060051461007d578060061461008f57610025610042565b8160011461003a578160031461004057610040575b" +
-	"60006000fd5b005b6015360380601560003760006000826000600060013560601c5af1905090565b3660006000376001600053600060003660006000" +
-	"305af15050005b610085610042565b1561003a57610062565b60153560f01c80601760003760006000826000600060013560601c5af11561003a5760" +
-	"1701806014018036038082600037600060008260006000873560601c5af11561003a5700")
+//	7 calldata = 7 ‖ target ‖ gas(4) ‖ payload: CALL with exactly that gas stipend, revert iff it failed
+var fwdInit = mustHex("610106600e6000396101066000f3" +
+	"60003560f81c8060021461006a5780600514610085578060061461009757806007146100df5761002d61004a565b8160011461004257816003146100" +
+	"4857610048575b60006000fd5b005b6015360380601560003760006000826000600060013560601c5af1905090565b36600060003760016000536000" +
+	"60003660006000305af15050005b61008d61004a565b156100425761006a565b60153560f01c80601760003760006000826000600060013560601c5a" +
+	"f11561004257601701806014018036038082600037600060008260006000873560601c5af11561004257005b60193603806019600037600060008260" +
+	"00600060013560601c60153560e01cf1156100425700")
 
 func mustHex(s string) []byte {
 	b, err := hex.DecodeString(s)
@@ -317,6 +321,14 @@ func (w *world) evmOp(op c06Op, target gethcommon.Address, payload []byte) bool 
 		return false
 	}
 	data := append([]byte{mode}, target.Bytes()...)
+	if op.CallGas > 0 {
+		if op.Frame != "plain" || op.CallGas > 0xffffffff {
+			return false
+		}
+		data[0] = 7
+		g := op.CallGas
+		data = append(data, byte(g>>24), byte(g>>16), byte(g>>8), byte(g))
+	}
 	data = append(data, payload...)
 	return w.ethTx(0, &w.fwd, data, op.Gas)
 }
@@ -1196,6 +1208,64 @@ func openers() [][]c06Op {
 	}
 }
 
+// gasSweep: the forwarder repeats one conversion with a descending gas stipend so that every point at which the
+// precompile can run out of gas half-way (between its ERC20 step and its bank step) is visited.
+func gasSweep(base c06Op, hi, lo, step int) []c06Op {
+	var ops []c06Op
+	for g := hi; g >= lo; g -= step {
+		op := base
+		op.A, op.Frame, op.CallGas = 5, "plain", uint64(g)
+		ops = append(ops, op)
+	}
+	return ops
+}
+
+func sweepCases(tier string) [][]c06Op {
+	step, hi, lo := 1000, 230_000, 40_000
+	if tier == "thorough" {
+		step = 200
+	}
+	c0, e0, gd := &denomRef{K: "c", N: 0}, &denomRef{K: "e", N: 0}, &denomRef{K: "g"}
+	coin := []c06Op{
+		{K: "meta", D: c0}, {K: "fund", A: 3, D: c0, X: "1000000"}, {K: "fund", A: 5, D: c0, X: "100000"},
+		{K: "create_coin", A: 3, D: c0}, {K: "convert", A: 3, D: c0, X: "500000", To: 5, Fmt: "hex"},
+	}
+	erc := func(kind string) []c06Op {
+		return []c06Op{
+			{K: "deploy", A: 1, Kind: kind}, {K: "create_erc20", A: 3, T: 0},
+			{K: "erc20_transfer", A: 1, T: 0, X: "900", To: 5},
+			{K: "send_to_bank", A: 5, T: 0, X: "400", To: 5, Fmt: "hex", Frame: "plain"},
+		}
+	}
+	gas := []c06Op{
+		{K: "meta", D: gd}, {K: "fund", A: 5, D: gd, X: "100000"}, {K: "create_coin", A: 3, D: gd},
+		{K: "send_to_evm", A: 5, D: gd, X: "50000", To: 5, Fmt: "hex", Frame: "plain"},
+	}
+	cat := func(xs ...[]c06Op) []c06Op {
+		var out []c06Op
+		for _, x := range xs {
+			out = append(out, x...)
+		}
+		return out
+	}
+	out := [][]c06Op{
+		cat(coin, gasSweep(c06Op{K: "send_to_bank", T: 0, X: "10", To: 6, Fmt: "hex"}, hi, lo, step)),
+		cat(coin, gasSweep(c06Op{K: "send_to_evm", D: c0, X: "10", To: 6, Fmt: "bech32"}, hi, lo, step)),
+		cat(erc("std"), gasSweep(c06Op{K: "send_to_bank", T: 0, X: "1", To: 6, Fmt: "hex"}, hi, lo, step)),
+		cat(erc("std"), gasSweep(c06Op{K: "send_to_evm", D: e0, X: "1", To: 6, Fmt: "hex"}, hi, lo, step)),
+		cat(gas, gasSweep(c06Op{K: "send_to_bank", T: 0, X: "10", To: 6, Fmt: "hex"}, hi, lo, step)),
+		cat(gas, gasSweep(c06Op{K: "send_to_evm", D: gd, X: "10", To: 6, Fmt: "hex"}, hi, lo, step)),
+	}
+	if tier == "thorough" {
+		out = append(out,
+			cat(erc("fee"), gasSweep(c06Op{K: "send_to_bank", T: 0, X: "1", To: 6, Fmt: "hex"}, hi, lo, 500)),
+			cat(erc("fee"), gasSweep(c06Op{K: "send_to_evm", D: e0, X: "1", To: 6, Fmt: "hex"}, hi, lo, 500)),
+			cat(coin, gasSweep(c06Op{K: "erc20_transfer", T: 0, X: "1", To: 6}, 120_000, 10_000, 500)),
+			cat(coin, gasSweep(c06Op{K: "bank_msg_send", D: c0, X: "1", To: 6, Fmt: "hex"}, hi, lo, 500)))
+	}
+	return out
+}
+
 func TestC06(t *testing.T) {
 	cfg := LoadCfg(t, 70, 1500)
 	em := NewEmitter(t, cfg.Out)
@@ -1215,6 +1285,9 @@ func TestC06(t *testing.T) {
 		return
 	}
 	for _, ops := range openers() {
+		run(ops)
+	}
+	for _, ops := range sweepCases(cfg.Tier) {
 		run(ops)
 	}
 	rng := NewRng(cfg.Seed)
